@@ -1,7 +1,156 @@
 import ASV.Drv.J
+import ASV.Model.LocOps
+import ASV.Model.LocString
+import ASV.Spec.Bases
 namespace ASV.Drv.C04
 open Lean ASV ASV.Drv
 
-def handle (_j : Json) : R Json := throw "C04: no model yet"
+def eToJson {α} (f : α → Json) : E α → Json
+  | .ok v => jObj [("ok", f v)]
+  | .error e => jObj [("err", Json.str e)]
+
+def ivsToJson (l : List Iv) : Json := jArr (l.map fun x => jArr [toJson x.1, toJson x.2])
+
+def optLoc (j : Json) (k : String) : R (Option Loc) :=
+  match j.getObjVal? k with
+  | .ok .null => pure none
+  | .ok v => do return some (← locOfJson v)
+  | .error _ => pure none
+
+def partsOK (L : Int) (l : Loc) : Bool :=
+  l.parts.all fun p => decide (0 ≤ p.lo) && decide (p.lo < p.hi) && (L == 0 || decide (p.hi ≤ L))
+
+/-- a location read as a *span*: a multi-exon gene covers its introns too (its hull), an
+    origin-spanning one covers the arc from its upper section over the origin to its lower section -/
+def spanParts (w : Int) (l : Loc) : List Part :=
+  if bridgesOrigin l then
+    match splitBridging l with
+    | .ok (lower, upper) => [fl (minList (upper.map (·.lo))) w, fl 0 (maxList (lower.map (·.hi)))]
+    | .error _ => l.parts
+  else [fl l.start l.end]
+
+/-- union of the bases of several spans, canonical -/
+def unionCanon (w : Int) (ls : List Loc) : List Iv := canon (ls.flatMap (spanParts w))
+
+def subsetIvs (a b : List Iv) : Bool :=
+  a.all fun x => b.any fun y => decide (y.1 ≤ x.1) && decide (x.2 ≤ y.2)
+
+def handle (j : Json) : R Json := do
+  let f ← strF j "f"
+  match f with
+  | "overlap" =>
+    let a ← locOfJson (← fld j "a"); let b ← locOfJson (← fld j "b")
+    let shares := (a.parts.map (·.lo) ++ b.parts.map (·.lo)).any fun i => a.mem i && b.mem i
+    return jObj [("model", toJson (locationsOverlap a b)), ("spec", toJson shares),
+                 ("scope", toJson (partsOK 0 a && partsOK 0 b))]
+  | "contains" =>
+    let a ← locOfJson (← fld j "a"); let b ← locOfJson (← fld j "b")
+    let spec := b.parts.all fun q => a.parts.any fun p => decide (p.lo ≤ q.lo) && decide (q.hi ≤ p.hi)
+    return jObj [("model", toJson (locationContainsOther a b)), ("spec", toJson spec),
+                 ("subset", toJson (subsetIvs b.canon a.canon)),
+                 ("scope", toJson (partsOK 0 a && partsOK 0 b))]
+  | "distance" =>
+    let a ← locOfJson (← fld j "a"); let b ← locOfJson (← fld j "b")
+    let w := intFD j "wrap" 0
+    let shares := (a.parts.map (·.lo) ++ b.parts.map (·.lo)).any fun i => a.mem i && b.mem i
+    let spec := if shares then 0 else specDist w a b
+    return jObj [("model", toJson (getDistance a b w)), ("spec", toJson spec),
+                 ("scope", toJson (partsOK w a && partsOK w b))]
+  | "bridges" =>
+    let a ← locOfJson (← fld j "a")
+    return jObj [("model", toJson (bridgesOrigin a))]
+  | "split" =>
+    let a ← locOfJson (← fld j "a")
+    return jObj [("model", eToJson (fun (x : List Part × List Part) =>
+      jArr [jArr (x.1.map partToJson), jArr (x.2.map partToJson)]) (splitBridging a))]
+  | "connect" =>
+    let ls ← listOf locOfJson (← fld j "ls")
+    let w := intFD j "wrap" 0
+    let wrap : Option Int := if w = 0 then none else some w
+    let m := connect ls wrap
+    let u := unionCanon w ls
+    let impl ← optLoc j "impl"
+    let onImpl := match impl with
+      | none => Json.null
+      | some r => jObj [
+          ("covers", toJson (subsetIvs u r.canon)),
+          ("wf", toJson (areaWF w (if w = 0 then (maxList (ls.map (·.end))) else w) r)),
+          ("len", toJson (ivsLen r.canon)),
+          ("strand", strandToJson r.strand)]
+    let hullLen := maxList (ls.map (·.end)) - minList (ls.map (·.start))
+    return jObj [("model", eToJson locToJson m), ("on_impl", onImpl),
+                 ("hull", jArr [toJson (minList (ls.map (·.start))), toJson (maxList (ls.map (·.end)))]),
+                 ("hull_len", toJson hullLen),
+                 ("shortest", toJson (if w = 0 then hullLen else shortestArc w u)),
+                 ("common_strand", strandToJson (commonStrand (ls.map fun l => (Loc.simple ⟨0, 0, l.strand⟩)))),
+                 ("scope", toJson (ls.all (partsOK w)))]
+  | "extend" =>
+    let a ← locOfJson (← fld j "a")
+    let d ← intF j "d"; let mx ← intF j "max"; let circ ← boolF j "circ"
+    let m := extendLocation a d mx circ
+    -- expected bases: the location plus `d` bases before its first part's start and after its last
+    -- part's end (in coordinate order), clipped on a line, wrapped on a ring
+    let ps := if a.strand == .rev then a.parts.reverse else a.parts
+    let n0 := (ps.head?.map (·.lo)).getD 0
+    let n1 := (ps.getLast?.map (·.hi)).getD 0
+    let base := ps.map fun p => (p.lo, p.hi)
+    let expected :=
+      if circ then canonIvs (base ++ wrapIv mx (n0 - d, n0) ++ wrapIv mx (n1, n1 + d))
+      else canonIvs (base ++ [(max 0 (n0 - d), n0), (n1, min mx (n1 + d))])
+    let impl ← optLoc j "impl"
+    let onImpl := match impl with
+      | none => Json.null
+      | some r => jObj [("canon", ivsToJson r.canon), ("inside", toJson (partsInside mx r)),
+                        ("area_wf", toJson (areaWF (if circ then mx else 0) mx r)),
+                        ("covers_input", toJson (subsetIvs a.canon r.canon)),
+                        ("within_expected", toJson (subsetIvs r.canon expected))]
+    -- "arc-shaped": one part, or two parts bridging the origin (the only shapes for which
+    -- "the bases within the distance" is a span)
+    let arc := match a.parts with
+      | [_] => true
+      | [_, _] => circ && bridgesOrigin a
+      | _ => false
+    return jObj [("model", eToJson locToJson m), ("expected", ivsToJson expected), ("on_impl", onImpl), ("arc", toJson arc),
+                 ("scope", toJson (partsOK mx a && d ≥ 0))]
+  | "offset" =>
+    let a ← locOfJson (← fld j "a")
+    let k ← intF j "k"; let w := intFD j "wrap" 0
+    let m := offsetLocation a k w
+    let base := a.parts.map fun p => (p.lo, p.hi)
+    let expected := if w = 0 then canonIvs (base.map fun x => (x.1 + k, x.2 + k))
+                    else canonIvs (base.flatMap (rotateIv w k))
+    let impl ← optLoc j "impl"
+    let onImpl := match impl with
+      | none => Json.null
+      | some r => jObj [("canon", ivsToJson r.canon), ("len", toJson r.len), ("strand", strandToJson r.strand),
+                        ("inside", toJson (w == 0 || partsInside w r)),
+                        ("disjoint", toJson (partsDisjoint r.parts))]
+    return jObj [("model", eToJson locToJson m), ("expected", ivsToJson expected), ("on_impl", onImpl),
+                 ("len", toJson a.len), ("strand", strandToJson a.strand),
+                 ("scope", toJson (partsOK w a && partsDisjoint a.parts))]
+  | "forwards" =>
+    let a ← locOfJson (← fld j "a")
+    return jObj [("model", locToJson (makeForwards a))]
+  | "redundant" =>
+    let a ← locOfJson (← fld j "a")
+    return jObj [("model", locToJson (removeRedundantExons a))]
+  | "build" =>
+    let ls ← listOf locOfJson (← fld j "ls")
+    return jObj [("model", eToJson locToJson (buildLocationFromOthers ls))]
+  | "featureLt" =>
+    let a ← locOfJson (← fld j "a"); let b ← locOfJson (← fld j "b")
+    return jObj [("model", eToJson (fun (x : Bool) => toJson x) (featureLt a b))]
+  | "collectionLt" =>
+    let a ← locOfJson (← fld j "a"); let b ← locOfJson (← fld j "b")
+    return jObj [("model", eToJson (fun (x : Bool) => toJson x) (collectionLt a b))]
+  | "string" =>
+    let a ← locOfJson (← fld j "a")
+    let s := locToString a
+    return jObj [("model", Json.str s),
+                 ("back", match locFromString s with | some l => locToJson l | none => Json.null)]
+  | "parse" =>
+    let s ← strF j "s"
+    return jObj [("model", match locFromString s with | some l => locToJson l | none => Json.null)]
+  | _ => throw s!"C04: unknown op {f}"
 
 end ASV.Drv.C04
